@@ -15,6 +15,7 @@ Inductive shape (e : env) (w : world) (o : op) : list bo -> Prop :=
     shape e w o (upd i (slept_bo e b c f s maxms errid) (w_bos w))
 | Sh_reset i b m : nth_error (w_bos w) i = Some b -> (m = b_max b \/ ~ not_resetmax o) ->
     shape e w o (upd i (reset_bo b m) (w_bos w))
+| Sh_ctx i b c : nth_error (w_bos w) i = Some b -> shape e w o (upd i (with_ctx b c) (w_bos w))
 | Sh_merge i j b f : o = OMerge i j -> nth_error (w_bos w) i = Some b -> nth_error (w_bos w) j = Some f ->
     on_chain (length (w_bos w)) (w_bos w) (b_parent f) i = true ->
     shape e w o (upd j (kill_bo f) (upd i (merged b f) (w_bos w))).
@@ -39,6 +40,8 @@ Proof.
   - dm; simpl; try apply Sh_same; eapply Sh_reset; eauto; right; simpl; tauto.
   - dm; simpl; apply Sh_same.
   - dm; simpl; apply Sh_same.
+  - apply Sh_same.
+  - dm; simpl; try apply Sh_same. eapply Sh_ctx; eauto.
 Qed.
 
 Definition bos_acct C L (w : world) := Forall (acct_inv C L) (w_bos w).
@@ -56,6 +59,7 @@ Proof.
     + inversion Hq; subst; auto.
   - eapply tree_ord_upd; eauto.
   - eapply tree_ord_upd; eauto.
+  - eapply tree_ord_upd; eauto.
   - pose proof (on_chain_lt _ T _ _ _ _ H1 H2) as Lt.
     eapply tree_ord_upd with (b := f); auto.
     + eapply tree_ord_upd; eauto.
@@ -71,6 +75,7 @@ Proof.
     + inversion Hq; subst. eauto.
   - eapply tree_max_upd; eauto.
   - destruct H0 as [->|N]; [|tauto]. eapply tree_max_upd; eauto.
+  - eapply tree_max_upd; eauto.
   - pose proof (on_chain_lt _ TO _ _ _ _ H1 H2) as Lt.
     eapply tree_max_upd with (b := f); auto.
     + eapply tree_max_upd; eauto.
@@ -86,6 +91,7 @@ Proof.
   - subst o. simpl in WF. pose proof (Forall_nth _ _ _ _ A H0) as Ab.
     apply Forall_upd; auto. eapply slept_acct; eauto. eapply pick_fn_wf; eauto.
   - apply Forall_upd; auto. apply reset_acct; auto. eapply Forall_nth; eauto.
+  - apply Forall_upd; auto. exact (Forall_nth _ _ _ _ A H).
   - subst o. destruct M as [M|T]; [simpl in M; tauto|].
     destruct (on_chain_max _ T _ _ _ _ H1 H2) as (bi & Hi & Em). assert (bi = b) by congruence. subst bi.
     apply Forall_upd; [apply Forall_upd; auto|].
@@ -99,6 +105,7 @@ Proof.
   - apply Forall_app. split; auto. constructor; auto. intros n0 v0 [].
   - apply Forall_app. split; auto. constructor; auto. exact (Forall_nth _ _ _ _ K H).
   - apply Forall_upd; auto. apply slept_keys. eapply Forall_nth; eauto.
+  - apply Forall_upd; auto. exact (Forall_nth _ _ _ _ K H).
   - apply Forall_upd; auto. exact (Forall_nth _ _ _ _ K H).
   - apply Forall_upd; [apply Forall_upd; auto|]; exact (Forall_nth _ _ _ _ K H1).
 Qed.
